@@ -117,7 +117,16 @@ def run(c):
     rnd = [G.random_instance(rng) for _ in range(600 if quick else 12000)]
     traces, meta, sk2 = run_instances(c, rnd, wd, 'random')
     validate(c, traces, meta)
-    c.extra['instances_not_constructible'] = skipped + sk2
+    # watches evaluated with a tiny watch budget: the count bound covers what watches add (WatchBound)
+    from . import c07
+    with c07.watch_budget(3):
+        insts = [c07.with_watches(rng, G.random_instance(rng, max_nodes=8, kinds=('int', 'list', 'dict', 'obj')), None)
+                 for _ in range(200 if quick else 4000)]
+        for i in insts:
+            i['maxVars'] = rng.choice([2, 3, 5])
+        traces, meta, sk3 = c07.run_instances_budget(c, insts, wd, 'watches-small-budget', 3)
+    validate(c, traces, meta)
+    c.extra['instances_not_constructible'] = skipped + sk2 + sk3
 
 
 if __name__ == '__main__':
